@@ -115,6 +115,9 @@ func c18Gen(g *fw.GenCtx) []fw.Case {
 			return
 		}
 		for _, t := range targets {
+			if t == "blank" && len(p) >= 3 {
+				continue // elements without a graph name: in patterns up to length 3
+			}
 			rec(append(append([]string{}, p...), t))
 		}
 	}
@@ -390,7 +393,7 @@ func init() {
 			"the accounts variant (elements for graphs the caller may not write) is exercised by C05",
 		},
 		BatchSize:   40,
-		CaseTimeout: 120 * time.Second,
+		CaseTimeout: 60 * time.Second,
 		Gen:         c18Gen,
 		Exec:        c18Exec,
 	})
